@@ -5,8 +5,6 @@ import SJ.Props.StreamTyped
 import SJ.Props.C13Raw
 #print axioms SJ.Props.C13.c13_read
 #print axioms SJ.Props.C13.c13_read_error_class
-#print axioms SJ.Props.C13.c13_write_prefix
-#print axioms SJ.Props.C13.c13_write_is_prefix
 #print axioms SJ.Props.Typed.c13_typed_fault
 #print axioms SJ.Props.C13.c13_buffers_utf8
 #print axioms SJ.Props.TypedFaultEq.c13_typed_fault_eq
@@ -18,3 +16,12 @@ import SJ.Props.C13Raw
 #print axioms SJ.Props.C13.c13_raw_clean_is_rawTop
 #print axioms SJ.Props.C13.c13_raw_fault_steps
 #print axioms SJ.Props.C13.c13_raw_fault_agrees
+#print axioms SJ.Props.C13.c13_write_all_spec
+#print axioms SJ.Props.C13.c13_writer_prefix
+#print axioms SJ.Props.C13.c13_writer_ok_iff
+#print axioms SJ.Props.C13.c13_writer_vec
+#print axioms SJ.Props.C13.c13_writer_budget
+#print axioms SJ.Props.C13.c13_trace_agrees
+#print axioms SJ.Props.C13.c13_writer_all
+#print axioms SJ.Props.C13.c13_writer_all_vec
+#print axioms SJ.Props.C13.c13_every_write_checked
